@@ -15,6 +15,7 @@ import (
 	"time"
 
 	log "github.com/go-spring/log"
+	"syscall"
 )
 
 type c19outage struct {
@@ -23,6 +24,7 @@ type c19outage struct {
 	ToBoundary   int  `json:"to_boundary"`
 	ToOffMs      int  `json:"to_off_ms"`
 	AsFile       bool `json:"replaced_by_regular_file"`
+	NoFds        bool `json:"descriptor_exhaustion,omitempty"` // instead of removing the directory: the process runs out of descriptors (EMFILE on create)
 }
 
 type c19placement struct {
@@ -33,23 +35,26 @@ type c19placement struct {
 
 func c19placements(thorough bool) []c19placement {
 	ps := []c19placement{
-		{"covers-boundary-1", []c19outage{{1, -300, 1, 300, false}}, 3},
-		{"covers-boundaries-1-2", []c19outage{{1, -300, 2, 300, false}}, 4},
-		{"starts-right-after-rotation", []c19outage{{1, 30, 2, 300, false}}, 4},
-		{"restored-just-before-boundary", []c19outage{{1, -300, 2, -40, false}}, 3},
-		{"restored-just-after-boundary", []c19outage{{1, -300, 2, 40, false}}, 4},
-		{"covers-three-boundaries", []c19outage{{1, -200, 3, 200, false}}, 5},
-		{"replaced-by-file-covers-1", []c19outage{{1, -300, 1, 300, true}}, 3},
-		{"replaced-by-file-covers-1-2", []c19outage{{1, -250, 2, 250, true}}, 4},
-		{"two-outages", []c19outage{{1, -200, 1, 200, false}, {3, -200, 3, 200, false}}, 5},
-		{"outage-at-first-boundary-after-start", []c19outage{{0, -100, 1, 100, false}}, 3},
-		{"back-to-back", []c19outage{{1, -200, 1, 150, false}, {2, -150, 2, 200, true}}, 4},
-		{"long-mid-interval-only", []c19outage{{1, 200, 1, 800, false}}, 3},
+		{"covers-boundary-1", []c19outage{{FromBoundary: 1, FromOffMs: -300, ToBoundary: 1, ToOffMs: 300}}, 3},
+		{"covers-boundaries-1-2", []c19outage{{FromBoundary: 1, FromOffMs: -300, ToBoundary: 2, ToOffMs: 300, AsFile: false}}, 4},
+		{"starts-right-after-rotation", []c19outage{{FromBoundary: 1, FromOffMs: 30, ToBoundary: 2, ToOffMs: 300, AsFile: false}}, 4},
+		{"restored-just-before-boundary", []c19outage{{FromBoundary: 1, FromOffMs: -300, ToBoundary: 2, ToOffMs: -40, AsFile: false}}, 3},
+		{"restored-just-after-boundary", []c19outage{{FromBoundary: 1, FromOffMs: -300, ToBoundary: 2, ToOffMs: 40, AsFile: false}}, 4},
+		{"covers-three-boundaries", []c19outage{{FromBoundary: 1, FromOffMs: -200, ToBoundary: 3, ToOffMs: 200, AsFile: false}}, 5},
+		{"replaced-by-file-covers-1", []c19outage{{FromBoundary: 1, FromOffMs: -300, ToBoundary: 1, ToOffMs: 300, AsFile: true}}, 3},
+		{"replaced-by-file-covers-1-2", []c19outage{{FromBoundary: 1, FromOffMs: -250, ToBoundary: 2, ToOffMs: 250, AsFile: true}}, 4},
+		{"two-outages", []c19outage{{FromBoundary: 1, FromOffMs: -200, ToBoundary: 1, ToOffMs: 200, AsFile: false}, {FromBoundary: 3, FromOffMs: -200, ToBoundary: 3, ToOffMs: 200, AsFile: false}}, 5},
+		{"outage-at-first-boundary-after-start", []c19outage{{FromBoundary: 0, FromOffMs: -100, ToBoundary: 1, ToOffMs: 100, AsFile: false}}, 3},
+		{"back-to-back", []c19outage{{FromBoundary: 1, FromOffMs: -200, ToBoundary: 1, ToOffMs: 150, AsFile: false}, {FromBoundary: 2, FromOffMs: -150, ToBoundary: 2, ToOffMs: 200, AsFile: true}}, 4},
+		{"long-mid-interval-only", []c19outage{{FromBoundary: 1, FromOffMs: 200, ToBoundary: 1, ToOffMs: 800, AsFile: false}}, 3},
+		{"emfile-covers-boundary-1", []c19outage{{FromBoundary: 1, FromOffMs: -300, ToBoundary: 1, ToOffMs: 300, NoFds: true}}, 3},
+		{"emfile-covers-boundaries-1-2", []c19outage{{FromBoundary: 1, FromOffMs: -300, ToBoundary: 2, ToOffMs: 300, NoFds: true}}, 4},
+		{"emfile-then-directory-outage", []c19outage{{FromBoundary: 1, FromOffMs: -200, ToBoundary: 1, ToOffMs: 200, NoFds: true}, {FromBoundary: 3, FromOffMs: -200, ToBoundary: 3, ToOffMs: 200}}, 5},
 	}
 	if thorough {
 		for _, off := range []int{-500, -100, -20, 20, 100, 500} {
-			ps = append(ps, c19placement{fmt.Sprintf("start%+d-end-after-2", off), []c19outage{{1, off, 2, 150, false}}, 4})
-			ps = append(ps, c19placement{fmt.Sprintf("start-before-1-end%+d", off), []c19outage{{1, -150, 2, off, off%40 == 0}}, 4})
+			ps = append(ps, c19placement{fmt.Sprintf("start%+d-end-after-2", off), []c19outage{{FromBoundary: 1, FromOffMs: off, ToBoundary: 2, ToOffMs: 150, AsFile: false}}, 4})
+			ps = append(ps, c19placement{fmt.Sprintf("start-before-1-end%+d", off), []c19outage{{FromBoundary: 1, FromOffMs: -150, ToBoundary: 2, ToOffMs: off, AsFile: off%40 == 0}}, 4})
 		}
 	}
 	return ps
@@ -73,6 +78,13 @@ func c19Outage(w *W) {
 	defer os.RemoveAll(dir)
 	defer os.RemoveAll(away)
 	const fname = "out.log"
+	for _, o := range pl.Outages {
+		if o.NoFds {
+			// a small descriptor table, so that it can be exhausted (and released) quickly
+			_ = syscall.Setrlimit(syscall.RLIMIT_NOFILE, &syscall.Rlimit{Cur: 96, Max: 96})
+			break
+		}
+	}
 	interval := time.Second
 	// start early in a second so that boundary numbering is stable
 	for time.Now().Nanosecond() > 200_000_000 {
@@ -98,6 +110,28 @@ func c19Outage(w *W) {
 		defer close(ctlDone)
 		for _, o := range pl.Outages {
 			time.Sleep(time.Until(at(o.FromBoundary, o.FromOffMs)))
+			if o.NoFds {
+				t1 := time.Now()
+				var hold []*os.File
+				for {
+					f, err := os.Open("/dev/null")
+					if err != nil {
+						break
+					}
+					hold = append(hold, f)
+				}
+				time.Sleep(time.Until(at(o.ToBoundary, o.ToOffMs)))
+				for _, f := range hold {
+					f.Close()
+				}
+				if len(hold) == 0 {
+					ctlErr.Store("fault controller: could not exhaust descriptors")
+				}
+				omu.Lock()
+				outages = append(outages, span{t1, time.Now()})
+				omu.Unlock()
+				continue
+			}
 			t1 := time.Now()
 			e1 := os.Rename(dir, away)
 			if o.AsFile {
@@ -474,7 +508,7 @@ func c19Worker(w *W) {
 func init() {
 	register(&Prop{
 		ID: "C19", Level: "fault_enumeration", MinDistinct: 10, Worker: c19Worker,
-		Rule: "faults: (a) the log directory of a running rolling appender (1 s interval) is renamed away and back - or replaced by a regular file - at 12 enumerated placements relative to real boundaries (covering one, two or three boundaries, starting right after a successful rotation, restored 40 ms before / after a boundary, two separate outages, back-to-back outages, outage at the first boundary, outage inside one interval only; thorough adds 12 offset sweeps) x {1,2,4} writers issuing self-describing records with call stamps; " +
+		Rule: "faults: (a) the log directory of a running rolling appender (1 s interval) is renamed away and back - or replaced by a regular file - at 12 enumerated placements relative to real boundaries, plus 3 placements in which the process runs out of descriptors instead (EMFILE on create), (covering one, two or three boundaries, starting right after a successful rotation, restored 40 ms before / after a boundary, two separate outages, back-to-back outages, outage at the first boundary, outage inside one interval only; thorough adds 12 offset sweeps) x {1,2,4} writers issuing self-describing records with call stamps; " +
 			"oracle: no panic, every record present whole exactly once after the restore, every boundary lying outside all outages has a file created in its interval (creation retried), a sequential writer's post-boundary writes are not in an older file. (b) 13 sink-failure scenarios: File/RollingFile appenders never started, after Stop, on /dev/full, with a missing directory at Start and at rotation, directory removed while open; console stream replaced by an erroring writer, a short writer, a closed file, a read-only file - Append and Write must return without panic or block. " +
 			"Non-trivial/distinct = distinct (placement, writers) runs + sink scenarios that held.",
 		Assumptions: []string{"the outage is produced by rename(2), so descriptors already open stay valid (that is what 'keeps writing to the file it already has' relies on)", "boundaries closer than 30 ms to an outage edge are not judged for retry"},
